@@ -53,9 +53,10 @@ type FuncContract struct {
 	Trusted       bool
 	Pure          bool
 	Inline        bool
-	NoHavoc       bool // "frame none": call does not modify the heap (but result is not a function of args)
-	ArithAssumed  bool // no overflow obligations for this function (results wrap as in Go)
-	PreservesArgs bool // "preserves-args": the callee does not write through pointers reachable from its arguments
+	NoHavoc       bool     // "frame none": call does not modify the heap (but result is not a function of args)
+	ArithAssumed  bool     // no overflow obligations for this function (results wrap as in Go)
+	Modifies      []string // "maps", "elems", "fields", "ptrs": the only heap classes the callee may change
+	PreservesArgs bool     // "preserves-args": the callee does not write through pointers reachable from its arguments
 	Clauses       []*Clause
 	File          string
 	Line          int
@@ -328,6 +329,9 @@ func (cs *Contracts) parseLines(lines []string, lineNos []int, file, pkgPath str
 				continue
 			case l == "inline":
 				cur.Inline = true
+				continue
+			case strings.HasPrefix(l, "modifies "):
+				cur.Modifies = append(cur.Modifies, strings.Fields(l[len("modifies "):])...)
 				continue
 			case l == "arith assumed":
 				cur.ArithAssumed = true
